@@ -3,6 +3,7 @@ use std::io::{self, Write};
 use serde_json::Value;
 use simlib::{
     grad::{C02Engine, C03Engine, C15Engine},
+    hist::C01Engine,
     runner::{install_panic_hook, replay, run_range, Engine, Tier},
 };
 
@@ -40,10 +41,14 @@ fn drive<E: Engine>(args: &[String]) -> i32 {
     i32::from(r.violations > 0)
 }
 
+#[global_allocator]
+static GLOBAL: simlib::seams::SimAlloc = simlib::seams::SimAlloc;
+
 fn main() {
     install_panic_hook();
     let args: Vec<String> = std::env::args().collect();
     let code = match args.get(1).map(String::as_str) {
+        Some("c01") => drive::<C01Engine>(&args),
         Some("c02") => drive::<C02Engine>(&args),
         Some("c03") => drive::<C03Engine>(&args),
         Some("c15") => drive::<C15Engine>(&args),
